@@ -12,7 +12,7 @@ import math
 import re
 import subprocess
 
-from .. import runner
+from .. import runner, sanit
 from ..common import jval, jstr, jnum, outcome, strict_json, bits, panic_sig
 
 PROP = "C05"
@@ -303,6 +303,19 @@ def shard(idx, n, tier, seed, binary, cli):
     return acc
 
 
+def escape_writer_jobs():
+    """directed at the unsafe byte view in the JSON string escaper: every ASCII byte class next to
+    multi-byte sequences, at the start / end of the string and of the internal copy runs"""
+    out = []
+    for lo, hi in ((0, 32), (32, 64), (64, 96), (96, 128), (128, 160), (0x7f0, 0x810), (0xfff0, 0x10010)):
+        body = "std.join('', [std.char(i) + 'é' for i in std.range(%d, %d)])" % (lo, hi - 1)
+        out.append(sanit.item("local s = %s; [std.manifestJsonEx({[s]: s}, ' '), std.toString([s]), std.escapeStringJson(s), '' + {a: s}]" % body))
+        out.append(sanit.item("std.manifestJsonMinified([std.char(i) for i in std.range(%d, %d)])" % (lo, hi - 1)))
+    for s_ in ('""', '"\\"', '"\""', '"\n"', '"a\u0000"', '"\u0000a"', '"\u001f\u001f"', '"é\t"', '"\t😀"', '"' + "x" * 300 + '\n"'):
+        out.append(sanit.item("[std.manifestJson(%s), std.toString({k: %s}), std.manifestJsonEx([%s], '\t', '\r\n', ' : ')]" % (s_, s_, s_)))
+    return out
+
+
 def run(tier, seed, t0):
     bins = runner.build("rel")
     cli = runner.build_cli()
@@ -310,13 +323,18 @@ def run(tier, seed, t0):
     acc = runner.Acc()
     for a in accs:
         acc.merge(a)
+    sanit.run_pass(acc, PROP, tier, seed, extra_items=escape_writer_jobs(),
+                   quick={"asan": 200, "memcheck": 48, "miri": 24},
+                   thorough={"asan": 1600, "memcheck": 400, "miri": 192})
     return runner.finish(
         PROP, tier, seed, "exploration", acc, t0,
         rule="strings covering %s, doubles across the exponent range (powers of 2 and 10 with 1-ulp neighbours, "
              "subnormals, +-2^53+-k, +-max, -0), random nested structures with hostile keys, depth 150, width 3000, "
              "empty containers; each value rendered as literal / comprehension / makeArray / inherited object with "
              "hidden and ::: fields / std.char / parseJson; 4 library formats + 17 std paths per value (+ CLI for a "
-             "sample); values containing functions must be rejected on 7 paths. distinct_nontrivial = distinct values "
+             "sample); values containing functions must be rejected on 7 paths; a sample of the jobs plus jobs directed "
+             "at the unsafe byte view of the string escaper replayed under AddressSanitizer, valgrind memcheck and Miri. "
+             "distinct_nontrivial = distinct values "
              "for which every text was accepted by the strict reader and read back bit-identical"
              % ("every Unicode scalar value" if tier == "thorough" else "every scalar below U+0800 plus class representatives"),
         assumptions=["Python's json module with parse_constant / object_pairs_hook guards is a correct strict JSON reader",
